@@ -33,7 +33,9 @@ RULE = (
     "FS: a generated tree materialised twice in two drawn creation orders (second copy on tmpfs or on the "
     "disk temp dir), staged with build() under checksum_jobs in {None,1,2,8}, state none / cold+warm, optionally "
     "with the State already holding rows for the same unchanged files from a build / _get_hashes run under the "
-    "OTHER md5 flavour, under sha256, or version-less DVC 2.x rows (CRLF text files are frequent), after "
+    "OTHER md5 flavour, under sha256, or version-less DVC 2.x rows (CRLF text files are frequent), through an "
+    "`ignore` object whose walk() yields every directory exactly once in a generated order (top-down with permuted "
+    "siblings, bottom-up, arbitrary permutation of the triples, names inside dirs/files permuted), after "
     "touch and chmod +x of drawn files, for a drawn sub-directory (direct build vs get_obj), with two "
     ">1 MiB files in one directory (public parallel path) and through _get_hashes(large_file_threshold=small, "
     "jobs, drawn per-file delays so the unordered pool really completes out of order). Oracle: every oid == "
@@ -41,7 +43,8 @@ RULE = (
     "its own hashlib digest. Non-trivial: pure = >=3 entries, >=1 nested key, permutation != identity; "
     "hist = nested keys and a read, then an overwrite of an existing key with another hash, then a prefix-based read; "
     "fs = >=2 files and (>=2 files hashed on pool threads in one phase, or a warm build served entirely from "
-    "the state, or a State pre-warmed under another algorithm). Distinct = SHA-1 of the case JSON."
+    "the state, or a State pre-warmed under another algorithm, or a walk that reaches a root holding files after a "
+    "sub-directory). Distinct = SHA-1 of the case JSON."
 )
 ASSUMPTIONS = [
     "key parts are non-empty, contain no '/' and no key is a prefix of another (a tree of files), as staging produces",
@@ -182,6 +185,12 @@ def fs_cases(draw, thorough=False):
                 tgt = tree[subs[0]]
         for nm in ("big1", "Big2", "big3")[:draw(st.integers(2, 3))]:
             tgt[nm] = draw(gen.large_content())
+    # files directly in the root AND in >= 1 sub-directory are frequent (walk-order arm)
+    if draw(st.booleans()):
+        if not any(isinstance(v, dict) for v in tree.values()):
+            tree[draw(st.sampled_from(["sub", "a", "zzz", "-"]))] = {"x": draw(FS_CONTENT), "deep": {"d": draw(FS_CONTENT)}}
+        if all(isinstance(v, dict) for v in tree.values()):
+            tree[draw(st.sampled_from(["rootfile", "b", "~"]))] = draw(FS_CONTENT)
     algo = draw(st.sampled_from(["md5", "md5", "md5", "md5", "md5-dos2unix", "sha256"]))
     # a State is only combined with the md5 family (see ASSUMPTIONS)
     states = ["none"] if algo == "sha256" else ["none", "state", "state", "state"]
@@ -203,6 +212,9 @@ def fs_cases(draw, thorough=False):
         "threshold": draw(st.sampled_from([0, 0, 1, 3, 5, 20, 600])),
         "slow": draw(st.lists(st.integers(0, 40), max_size=3)),
         "gorder": draw(st.lists(st.integers(0, 40), max_size=8)),
+        # order in which an `ignore` object's walk() yields the (root, dirs, files) triples
+        "walk": {"mode": draw(st.sampled_from(["topdown", "bottomup", "bottomup", "arbitrary", "arbitrary"])),
+                 "perm": draw(st.lists(st.integers(0, 11), min_size=1, max_size=8))},
     }
 
 
@@ -542,6 +554,46 @@ class HashSpy:
         return c, p
 
 
+class OrderedWalker:
+    """An `ignore` object that ignores nothing and only fixes the walk order (the hook build(ignore=...) takes
+    its walk from). Like DvcIgnoreFilter.walk it yields every directory exactly once as (root, dirs, files)
+    with the complete, correct dirs and files lists; only the order of the triples and of the names inside the
+    lists is generated: top-down with permuted siblings, bottom-up (os.walk(topdown=False) style), or an
+    arbitrary permutation of the triples."""
+
+    def __init__(self, mode, ints):
+        self.mode = mode
+        self.ints = ints or [0]
+        self.order = []
+
+    def find(self, fs, path, **kwargs):
+        yield from fs.find(path)
+
+    def _triple(self, root, salt):
+        dirs, files = [], []
+        for name in sorted(os.listdir(root)):
+            (dirs if os.path.isdir(os.path.join(root, name)) else files).append(name)
+        rot = self.ints[salt % len(self.ints):] + self.ints[:salt % len(self.ints)]
+        return root, permute(dirs, rot), permute(files, rot[::-1])
+
+    def _rec(self, root, depth):
+        t = self._triple(root, depth + len(root))
+        if self.mode == "topdown":
+            yield t
+        for name in t[1]:
+            yield from self._rec(os.path.join(root, name), depth + 1)
+        if self.mode != "topdown":
+            yield t
+
+    def walk(self, fs, path, **kwargs):
+        triples = list(self._rec(path, 0))
+        if self.mode == "arbitrary":
+            triples = permute(triples, self.ints)
+        for root, dirs, files in triples:
+            self.order.append(root)
+            yield root, list(dirs), list(files)
+
+
 def bump_mtime(path, delta_ns):
     st_ = os.stat(path)
     os.utime(path, ns=(st_.st_atime_ns, st_.st_mtime_ns + delta_ns))
@@ -561,6 +613,7 @@ def run_fs(case, ctx):
     pool_max = 0
     warm_hit = False
     prewarmed = False
+    walk_root_late = False
     fs = LocalFileSystem()
     with ctx.tmpdir() as d, HashSpy() as spy:
         try:
@@ -585,9 +638,9 @@ def run_fs(case, ctx):
             odb = ops.make_odb("local", os.path.join(d, "odb"), **cfg)
             spy.exclude = os.path.join(d, "odb") + os.sep
 
-            def stage(path, label, jobs, expect=want, expect_bytes=want_bytes):
+            def stage(path, label, jobs, expect=want, expect_bytes=want_bytes, **kw):
                 nonlocal pool_max
-                _, _, obj = build(odb, path, fs, algo, checksum_jobs=jobs)
+                _, _, obj = build(odb, path, fs, algo, checksum_jobs=jobs, **kw)
                 calls, pooled = spy.phase()
                 pool_max = max(pool_max, pooled)
                 if not isinstance(obj, Tree):
@@ -670,6 +723,19 @@ def run_fs(case, ctx):
                     classes.append("fs:warm-build")
             stage(w2, "second-copy", case["jobs2"])
 
+            # same tree through an `ignore` object whose walk() yields the directories in a generated order
+            wk = case.get("walk")
+            if wk:
+                walker = OrderedWalker(wk["mode"], wk["perm"])
+                stage(w1, "walk-" + wk["mode"], case["jobs2"], ignore=walker)
+                classes.append("fs:walk=" + wk["mode"])
+                has_root_files = any("/" not in r for r in rels)
+                if has_root_files and any("/" in r for r in rels):
+                    classes.append("fs:root-files+subdir")
+                    if walker.order and walker.order[0] != w1:
+                        classes.append("fs:walk-root-not-first")
+                        walk_root_late = True
+
             files1 = [os.path.join(w1, *r.split("/")) for r in rels]
             touched = False
             for n, i in enumerate(case["touch"]):
@@ -715,7 +781,7 @@ def run_fs(case, ctx):
         classes.append("fs:pool>=2")
     if warm_hit:
         classes.append("fs:warm-hit")
-    return Result(viols, len(flat) >= 2 and (pool_max >= 2 or warm_hit or prewarmed), classes,
+    return Result(viols, len(flat) >= 2 and (pool_max >= 2 or warm_hit or prewarmed or walk_root_late), classes,
                   {"fs_cases": 1, "pool_hashed_files": pool_max})
 
 
